@@ -248,6 +248,7 @@ pub fn run(run: &mut Run) {
     let thorough = run.thorough();
     let mut sel = Sel::standard(thorough);
     sel.counters = true;
+    sel.clocks = true;
     sel.m4 = None;
     run_universes(run, &sel, DISAGREE, &check_pos);
     if thorough {
